@@ -1828,8 +1828,9 @@ def _read_reader_macro(ctx: ReaderContext) -> LispReaderForm:
 
     if (read_macro := _read_macro_dispatch.get(char)) is not None:
         v = read_macro(ctx)
-        if char in {"{", "("} and isinstance(v, IWithMeta) and v.meta is not None:
-            # The location of set and function literals starts at the '#'
+        if char in {"{", "(", ":"} and isinstance(v, IWithMeta) and v.meta is not None:
+            # The location of set, function and namespaced map literals starts at
+            # the '#'
             v = v.with_meta(v.meta.assoc(READER_LINE_KW, line, READER_COL_KW, col))
         return v
     elif begin_ns_name_chars.match(char):
